@@ -120,17 +120,20 @@ def py_chain(spec: dict, cond: int, tokens: Sequence[int]) -> float:
 # ------------------------------------------------------------------------- strategies
 
 
-def lm_specs(min_V=1, max_V=4, max_cond=3, q=4, lo=-12, hi=12, distinct_rows=True):
+def lm_specs(min_V=1, max_V=4, max_cond=3, q=4, lo=-12, hi=12, distinct_rows=True, min_cond=1):
     """Strategy for HashLM specifications (plain JSON)."""
 
     @st.composite
     def _spec(draw):
-        V = draw(st.integers(min_V, max_V))
-        M = draw(st.sampled_from([1, 2, 3, 5, 7]))
-        mult = draw(st.integers(1, 3))
+        # Hypothesis runs many examples whose tail is "all simplest": keep the simplest values interesting
+        Vs = list(range(min_V, max_V + 1))
+        mid = Vs[min(len(Vs) - 1, 2 if len(Vs) > 2 else len(Vs) - 1)]
+        V = draw(st.sampled_from([mid] + [v for v in Vs if v != mid]))
+        M = draw(st.sampled_from([3, 5, 7, 2, 1]))
+        mult = draw(st.sampled_from([2, 1, 3]))
         row = st.lists(st.integers(lo, hi), min_size=V, max_size=V, unique=distinct_rows and (hi - lo + 1) >= V)
         table = draw(st.lists(row, min_size=M, max_size=M))
-        C = draw(st.integers(1, max_cond))
+        C = draw(st.integers(min_cond, max_cond))
         crow = st.lists(st.integers(-16, 16), min_size=V, max_size=V)
         cond = draw(st.lists(crow, min_size=C, max_size=C))
         return {"V": V, "M": M, "mult": mult, "table": table, "cond": cond, "q": q}
